@@ -4,6 +4,8 @@
 package main
 
 import (
+	"bytes"
+	"compress/gzip"
 	"encoding/json"
 	"flag"
 	"fmt"
@@ -43,6 +45,8 @@ func main() {
 		os.Exit(cmdTrace(os.Args[2:]))
 	case "mutants":
 		os.Exit(cmdMutants(os.Args[2:]))
+	case "names":
+		os.Exit(cmdNames(os.Args[2:]))
 	case "list":
 		for _, id := range spec.IDs() {
 			fmt.Println(id)
@@ -479,5 +483,49 @@ func cmdSizes(args []string) int {
 			fmt.Printf("%-8s %-8s %s %s: %s  [%s] bound=%s\n", s.Class, s.Kind, f.ID, f.Where(s.Node.Pos()), an.Text(s.Node), s.Why, s.Bound)
 		}
 	}
+	return 0
+}
+
+
+// cmdNames writes (or compares) the baseline of variable names per function
+// declaration that makes name-based rule instances tolerate renames
+// (internal/an/names.go). It is regenerated on the reviewed tree only.
+func cmdNames(args []string) int {
+	fs := flag.NewFlagSet("names", flag.ExitOnError)
+	repo := fs.String("repo", "/repo", "repository root")
+	out := fs.String("o", "", "output file (gzip'ed JSON)")
+	fs.Parse(args)
+	an.DisableNamesBaseline()
+	all := map[string][]an.NameEntry{}
+	for _, l := range []struct{ dir, pat string }{{*repo, "./..."}, {*repo + "/tlv", "./..."}} {
+		res, err := load.Load(load.Config{Dir: l.dir, Patterns: []string{l.pat}})
+		if err != nil {
+			fmt.Fprintln(os.Stderr, err)
+			return 2
+		}
+		prog := an.NewProg(res)
+		for _, f := range prog.Funcs(false) {
+			if f.Decl == nil || f.Obj == nil {
+				continue
+			}
+			if ns := an.NamesOf(f.Info(), f.Decl); len(ns) > 0 {
+				all[f.ID] = ns
+			}
+		}
+	}
+	b, _ := json.Marshal(all)
+	if *out == "" {
+		fmt.Printf("%d functions, %d bytes\n", len(all), len(b))
+		return 0
+	}
+	var buf bytes.Buffer
+	zw, _ := gzip.NewWriterLevel(&buf, gzip.BestCompression)
+	zw.Write(b)
+	zw.Close()
+	if err := os.WriteFile(*out, buf.Bytes(), 0o644); err != nil {
+		fmt.Fprintln(os.Stderr, err)
+		return 2
+	}
+	fmt.Printf("%d functions, %d bytes (%d compressed) -> %s\n", len(all), len(b), buf.Len(), *out)
 	return 0
 }
